@@ -122,6 +122,38 @@ def run(chk: Check):
                           f"(norb={I['norb']}, nelec=({I['nu']},{I['nd']}))",
                           {"instance": I["json"], "library": got if isinstance(got, str) else got.tolist(),
                            "exact": exact.real.tolist()})
+    # ---- NOCI with a NEARLY orthogonal pair of (orthonormal-orbital) determinants: pair overlap 1e-9, but overlap x transition
+    # density is O(1) - the cross terms belong to <a+ a>.  Not representable in the integer oracle (1e-9): the reference is
+    # a brute-force Fock-space evaluation in numpy (harness/manybody.py), the state vectors themselves built by sdvec
+    import itertools
+    import jax.numpy as jnp
+    from ad_afqmc import wavefunctions
+    from .. import manybody
+    for (norb, nu, nd, eps) in ((3, 2, 1, 1e-9), (4, 2, 2, 3e-10)):
+        r4 = np.random.default_rng(170 + chk.seed + norb)
+        E = np.eye(norb)
+        s_ = np.sqrt(1.0 - eps * eps)
+        du = [E[:, :nu].copy(), E[:, :nu].copy(), np.linalg.qr(r4.normal(size=(norb, nu)))[0]]
+        du[1][:, 0] = eps * E[:, 0] + s_ * E[:, norb - 1]          # <D_1|D_2> = eps, orbitals orthonormal
+        dd = [E[:, :nd].copy(), E[:, :nd].copy(), np.linalg.qr(r4.normal(size=(norb, nd)))[0]]
+        cs = np.array([0.8, 0.6, 0.3])
+        cfgs = [(a, b) for a in itertools.combinations(range(norb), nu) for b in itertools.combinations(range(norb), nd)]
+        vec = sum(c * manybody.sdvec(cfgs, u, d) for c, u, d in zip(cs, du, dd))
+        exact = manybody.rdm1(cfgs, vec, norb)
+        trial = wavefunctions.noci(norb, (nu, nd), 3)
+        wdn = {"ci_coeffs_dets": [jnp.array(cs), [jnp.array(np.array(du)), jnp.array(np.array(dd))]]}
+        chk.case(("rdm-noci-near-orthogonal", norb))
+        chk.traces += 1
+        try:
+            got = np.asarray(trial.get_rdm1(wdn))
+            ok = got.shape == exact.shape and np.allclose(got, exact, rtol=0, atol=1e-7)
+        except Exception as e:
+            got, ok = repr(e), False
+        if not ok:
+            chk.violation("rdm1:noci:near-orthogonal-pair", f"noci get_rdm1 with two determinants of overlap {eps:g} (orthonormal orbitals, "
+                          f"norb={norb}, nelec=({nu},{nd})) differs from the brute-force <psi|a+ a|psi>/<psi|psi> by "
+                          f"{'exception ' + got if isinstance(got, str) else float(np.max(np.abs(got - exact)))}", {"norb": norb, "eps": eps})
+    chk.trusted_base += ["numpy brute-force Fock-space 1-RDM (harness/manybody.rdm1) for the two near-orthogonal NOCI instances the integer oracle cannot represent"]
     chk.note("walkers_with_exactly_zero_overlap", nskip_zero)
     chk.note("tolerance", wfcheck.TOL64)
     chk.note("kinds", list(wf.ALL_KINDS))
